@@ -256,6 +256,45 @@ pub fn run(sc: &Value) -> Vec<Value> {
             }
         }
     }
+    // ---- the same decoding rule through the STREAMING reader (local headers; these archives keep local order = central
+    // order, carry no data descriptors and no encryption): name by the flag, raw name kept
+    if sc.get("decode").and_then(|x| x.as_bool()).unwrap_or(false) {
+        let mut cur = std::io::Cursor::new(&bytes[..]);
+        let mut k = 0usize;
+        loop {
+            let raw = match lcd.get(k).and_then(|c| c.get("rawhex")).and_then(|x| x.as_str()) {
+                Some(h) => unhex(h),
+                None => break,
+            };
+            let flag = lcd[k]["flags"].as_u64().unwrap_or(0) & 0x800 != 0;
+            let r = catch_unwind(AssertUnwindSafe(|| match zip::read::read_zipfile_from_stream(&mut cur) {
+                Ok(Some(f)) => Some((f.name().chars().map(|ch| ch as u32).collect::<Vec<u32>>(), f.name_raw().to_vec())),
+                _ => None,
+            }));
+            let mut m = Map::new();
+            m.insert("ev".into(), json!("RDecode"));
+            m.insert("i".into(), json!(k + 1));
+            m.insert("field".into(), json!("name"));
+            m.insert("stream".into(), json!(true));
+            m.insert("flag".into(), json!(flag));
+            m.insert("raw".into(), json!(raw));
+            m.insert("lossy".into(), json!(String::from_utf8_lossy(&raw).chars().map(|ch| ch as u32).collect::<Vec<u32>>()));
+            match r {
+                Ok(Some((got, rawgot))) => {
+                    m.insert("got".into(), json!(got));
+                    m.insert("rawgot".into(), json!(rawgot));
+                    push(m);
+                }
+                _ => {
+                    m.insert("got".into(), json!([-2]));
+                    m.insert("rawgot".into(), json!([-2]));
+                    push(m);
+                    break;
+                }
+            }
+            k += 1;
+        }
+    }
     // ---- sanitised paths (C06)
     if sc.get("paths").and_then(|x| x.as_bool()).unwrap_or(false) {
         for i in 0..n {
